@@ -12,7 +12,7 @@ from dsim.axil_agents import AXILMaster, AXILSlave
 
 PROPERTY = "C11"
 LEVEL = "fault_enumeration"
-RULE = ("families wb/axil: seeded interconnect (Timeout alone or shared interconnect 1-2 masters x 1-2 slaves, timeout t in "
+RULE = ("families wb/axil/axi: seeded interconnect (Timeout alone or shared interconnect 1-2 masters x 1-2 slaves, timeout t in "
         "1..16), literal master histories incl. unmapped addresses, one slave going silent at a literal cycle (optionally "
         "coming back), slave latencies around t (late_resp). Families wb_sweep/axil_sweep enumerate the silence instant over "
         "EVERY cycle of a fixed short scenario for several t (crash-point enumeration). waittimer: enumerated wait patterns. "
@@ -28,6 +28,7 @@ ASSUMPTIONS = [
 ]
 COMPONENTS = {"real": ["litex.soc.interconnect.wishbone.Timeout/InterconnectShared/Crossbar",
                        "litex.soc.interconnect.axi.axi_lite.AXILiteTimeout/AXILiteInterconnectShared/AXILiteCrossbar",
+                       "litex.soc.interconnect.axi.axi_full.AXITimeout/AXIInterconnectShared/AXICrossbar (single-beat transfers)",
                        "litex.gen.genlib.misc.WaitTimer", "litex.gen.sim.core.Simulator"],
               "stub": ["bus master/slave agents with silence fault", "combinational cyc&stb ack gate (harness FHDL)", "clock source"]}
 CHUNK = 4
@@ -37,8 +38,8 @@ SWEEP_LEN = 48
 
 def plan(tier):
     if tier == "quick":
-        return [("wb", 150), ("axil", 100), ("wb_sweep", len(SWEEP_T) * SWEEP_LEN), ("axil_sweep", 2 * SWEEP_LEN), ("waittimer", 16)]
-    return [("wb", 8000), ("axil", 5000), ("wb_sweep", len(SWEEP_T) * SWEEP_LEN * 4), ("axil_sweep", len(SWEEP_T) * SWEEP_LEN * 4),
+        return [("wb", 150), ("axil", 100), ("axi", 100), ("wb_sweep", len(SWEEP_T) * SWEEP_LEN), ("axil_sweep", 2 * SWEEP_LEN), ("waittimer", 16)]
+    return [("wb", 8000), ("axil", 5000), ("axi", 5000), ("wb_sweep", len(SWEEP_T) * SWEEP_LEN * 4), ("axil_sweep", len(SWEEP_T) * SWEEP_LEN * 4),
             ("waittimer", 64)]
 
 
@@ -120,11 +121,48 @@ def gen_axil(rng, t=None, silent=None, kind=None, nm=None, ns=None):
     return scn
 
 
+def gen_axi(rng):
+    """AXI4 (full) shared interconnect / AXITimeout with single-beat transfers; every op has its own address."""
+    t = rng.choice([1, 2, 3, 5, 8, 16])
+    kind = rng.choice(["shared", "shared", "timeout_only"])
+    nm = 1 if kind == "timeout_only" else rng.choice([1, 2])
+    ns = 1 if kind == "timeout_only" else rng.choice([1, 2])
+    ops = []
+    for m in range(nm):
+        lst = []
+        for j in range(rng.randint(5, 12)):
+            off = ((m * 16 + j) << 2)
+            if kind != "timeout_only" and rng.random() < 0.2:
+                addr = 0x8000 + off
+            else:
+                addr = AX_WINS[rng.randrange(ns)][0] + off
+            if rng.random() < 0.5:
+                lst.append({"kind": "w", "addr": addr, "len": 0, "size": 2, "burst": 1, "id": 0, "strb": [15],
+                            "data": [((m + 1) << 28) | (j << 16) | rng.getrandbits(16)], "gap": rng.choice([0, 1, 3]), "wgaps": [rng.choice([0, 1, 3])]})
+            else:
+                lst.append({"kind": "r", "addr": addr, "len": 0, "size": 2, "burst": 1, "id": 0, "gap": rng.choice([0, 1, 3])})
+        ops.append(lst)
+    import re
+    slaves = []
+    for _ in range(ns):
+        sc = {"lat": [rng.choice([0, 1, 2, t, t + 3]) for _ in range(8)], "depth": rng.choice([1, 2])}
+        for ch in ("aw", "w", "ar"):
+            pat = prng.pattern(rng, 80, rng.choice([1.0, 0.7])) if t >= 8 else ""
+            sc[ch] = re.sub("0{4,}", lambda m_: "000" + "1" * (len(m_.group(0)) - 3), pat)      # own stalls of at most 3 cycles
+        slaves.append(sc)
+    scn = {"family": "axi", "params": {"kind": kind, "nm": nm, "ns": ns, "t": t}, "ops": ops, "slaves": slaves, "faults": []}
+    if rng.random() < 0.7:
+        scn["faults"].append({"kind": "silent_slave", "slave": rng.randrange(ns), "at": rng.randint(0, 60), "between_aw_w": rng.random() < 0.4})
+    return scn
+
+
 def generate_indexed(family, index, rng, tier):
     if family == "wb":
         return gen_wb(rng)
     if family == "axil":
         return gen_axil(rng)
+    if family == "axi":
+        return gen_axi(rng)
     if family in ("wb_sweep", "axil_sweep"):
         # fixed scenario per (t, variant): the same PRNG stream for every fault instant, so only the instant differs
         ts = SWEEP_T if family == "wb_sweep" or tier != "quick" else [2, 8]
@@ -152,6 +190,8 @@ def generate(family, rng, tier, **kw):
         return gen_wb(rng, **kw)
     if family == "axil":
         return gen_axil(rng, **kw)
+    if family == "axi":
+        return gen_axi(rng)
     return generate_indexed(family, rng.randrange(64), rng, tier)
 
 
@@ -190,6 +230,8 @@ def run(scn):
         return run_wb(scn)
     if fam in ("axil", "axil_sweep"):
         return run_axil(scn)
+    if fam == "axi":
+        return run_axi(scn)
     return run_waittimer(scn)
 
 
@@ -395,6 +437,104 @@ def run_axil(scn):
     return {"violations": viols, "digest": bench.digest(), "stats": stats}
 
 
+def run_axi(scn):
+    from migen import Module
+    from litex.soc.interconnect.axi import axi_full
+    from litex.soc.integration.soc import SoCRegion
+    from dsim.axi_agents import AXIMaster, AXISlave
+    p = scn["params"]
+    nm, ns, t, kind = p["nm"], p["ns"], p["t"], p["kind"]
+    masters = [axi_full.AXIInterface(data_width=32, address_width=32) for _ in range(nm)]
+    slaves = [axi_full.AXIInterface(data_width=32, address_width=32) for _ in range(ns)]
+
+    class FB:
+        data_width, address_width = 32, 32
+    m = Module()
+    if kind == "timeout_only":
+        m.comb += masters[0].connect(slaves[0])
+        m.submodules.timeout = to = axi_full.AXITimeout(masters[0], t)
+        err_sig = to.error
+    else:
+        preds = [SoCRegion(origin=o, size=1 << k).decoder(FB) for o, k in AX_WINS[:ns]]
+        cls = axi_full.AXICrossbar if kind == "crossbar" else axi_full.AXIInterconnectShared
+        m.submodules.ic = ic = cls(masters, list(zip(preds, slaves)), timeout_cycles=t)
+        err_sig = ic.timeout.error if hasattr(ic, "timeout") else None
+    nops = sum(len(o) for o in scn["ops"])
+    bench = Bench(wrap_top(m), max_cycles=nops * (t + 16) + 300, tail=8, fingerprint=False)
+    dec = lambda a: adec(a, ns)  # noqa
+    ibyte = lambda si: (lambda a: ((si + 1) * 37 + a * 7) & 0xff)  # noqa
+    mag = [bench.add(AXIMaster(mb, scn["ops"][i], name="m%d" % i, max_out=1)) for i, mb in enumerate(masters)]
+    sag = []
+    for i, sb in enumerate(slaves):
+        sc = scn["slaves"][i]
+        f = next((f for f in scn["faults"] if f["slave"] == i), None)
+        sag.append(bench.add(AXISlave(sb, name="s%d" % i, awready=sc["aw"], wready=sc["w"], arready=sc["ar"], lat=sc["lat"], depth=sc["depth"],
+                                      init=ibyte(i), silent_from=f["at"] if f else None)))
+        sag[-1].silent_between = bool(f and f.get("between_aw_w"))
+    smp = bench.add(Sampler(err_sig)) if err_sig is not None else None
+    bench.run()
+    viols = []
+
+    def V(cls, obs, msg, cycle=None):
+        if len(viols) < 5:
+            viols.append({"prop": "C11", "cls": cls, "observable": obs, "msg": msg, "cycle": cycle})
+    checks = 0
+    nforced = nreal = 0
+    for mi, ma in enumerate(mag):
+        if not ma.done():
+            V("bus_hung", "m%d" % mi, "%d/%d writes, %d/%d reads completed after %d cycles (timeout %d)"
+              % (ma.b_n, len(ma.writes), ma.r_n, len(ma.reads_), bench.cycle["sys"], t))
+        for k, beats in enumerate(ma.r_log):
+            op = ma.reads_[k]
+            d = dec(op["addr"])
+            accepted = d is not None and any(e[1] == op["addr"] for e in sag[d].log["ar"])
+            checks += 1
+            if len(beats) != 1 or not beats[0][3]:
+                V("wrong_error_value", "m%d.r" % mi, "single-beat read %#x answered with %d beats, last=%s" % (op["addr"], len(beats), [b[3] for b in beats]), beats[0][0])
+                continue
+            tr, data, resp = beats[0][0], beats[0][1], beats[0][2]
+            if accepted:
+                nreal += 1
+                exp = sum(ibyte(d)(op["addr"] + i) << (8 * i) for i in range(4))
+                if resp != 0 or data != exp:
+                    V("answer_disturbed", "m%d.r" % mi, "read %#x accepted by slave %d returned data=%#x resp=%d (slave holds %#x)" % (op["addr"], d, data, resp, exp), tr)
+            else:
+                nforced += 1
+                if resp != 2 or data != 0xffffffff:
+                    V("wrong_error_value", "m%d.r" % mi, "read %#x not accepted by any slave returned data=%#x resp=%d (expected all ones, SLVERR)" % (op["addr"], data, resp), tr)
+        for k, (tb, resp, id_) in enumerate(ma.b_log):
+            op = ma.writes[k]
+            d = dec(op["addr"])
+            accepted = d is not None and any(e[1] == op["addr"] and e[2] == op["data"][0] for e in sag[d].log["wbeats"])
+            checks += 1
+            if accepted:
+                nreal += 1
+                if resp != 0:
+                    V("answer_disturbed", "m%d.b" % mi, "write %#x accepted by slave %d answered resp=%d" % (op["addr"], d, resp), tb)
+            else:
+                nforced += 1
+                if resp != 2:
+                    V("wrong_error_value", "m%d.b" % mi, "write %#x not accepted by any slave answered resp=%d (expected SLVERR)" % (op["addr"], resp), tb)
+        for (tt, ch, what) in ma.proto[:2]:
+            V("protocol_master_side", "m%d.%s" % (mi, ch), "cycle %d: %s" % (tt, what), tt)
+    for si, sa in enumerate(sag):
+        for (tt, a, dta, s_) in sa.log["wbeats"]:
+            checks += 1
+            mi = (dta >> 28) - 1
+            if not (0 <= mi < nm) or not any(o["addr"] == a and o["data"][0] == dta for o in mag[mi].writes):
+                V("answer_disturbed", "s%d" % si, "slave received write addr=%#x data=%#x that no master sent" % (a, dta), tt)
+    if smp is not None:
+        checks += 1
+        n = len(smp.high)
+        if n > nforced or n < (nforced + 1) // 2:
+            V("error_pulse", "timeout.error", "error high in %d cycles %s for %d forced (SLVERR) responses" % (n, smp.high[:10], nforced))
+    stats = {"cycles": bench.cycle["sys"], "checks": checks, "nontrivial": bool(nforced and nreal),
+             "faults": dict(bench.fault_counts, forced_terminations=nforced,
+                            unmapped_addr=sum(1 for ma in mag for o in ma.writes + ma.reads_ if dec(o["addr"]) is None)),
+             "probes": {"t_%d" % t: 1, "axi_full": 1}}
+    return {"violations": viols, "digest": bench.digest(), "stats": stats}
+
+
 def run_waittimer(scn):
     from litex.gen.genlib.misc import WaitTimer
     t = scn["t"]
@@ -436,7 +576,8 @@ def run_waittimer(scn):
 def known_match(scn, v):
     p = scn.get("params", {})
     if p.get("kind") == "crossbar" and v["cls"] == "bus_hung":
-        return "C11-F1" if scn.get("family", "wb").startswith("wb") else "C11-F1b"
+        fam = scn.get("family", "wb")
+        return "C11-F1" if fam.startswith("wb") else ("C11-F1c" if fam == "axi" else "C11-F1b")
     if any(f.get("mid_request") for f in scn.get("faults", [])) and v["cls"] == "bus_hung":
         return "C11-F2"
     return None
